@@ -68,9 +68,13 @@ def judge_cell(chk, L, R, spec):
 	key_mode = spec.get("key_mode", "name")
 	a, b = list(lon), list(ron)
 	if key_mode == "vector":
-		a, b = [L[k] for k in a], [R[k] for k in b]
+		a, b = [L.cols()[ln.index(k)] for k in a], [R.cols()[rn.index(k)] for k in b]
+	elif key_mode in ("external", "named-derived"):
+		a, b = [Vector(list(c)) for c in lkeycols], [Vector(list(c)) for c in rkeycols]
 	if len(a) == 1 and spec.get("scalar"):
 		a, b = a[0], b[0]
+	if isinstance(expect, str) and spec.get("dynamic_expect", True):
+		expect = "".join(list(expect))      # equal to the documented word but built at run time (read from a file, a CLI, a config), not the interned literal
 	o = call(fn_of(L, how), R, a, b, expect=expect)
 	stratum = spec.get("stratum", "cell")
 	chk.judged(stratum, ("cell", how, expect, lu, ru, spec.get("variant")))
@@ -118,7 +122,9 @@ RUNNERS["recompute"] = recompute.runner("C11")
 
 def realise(rng, lu, ru, variant, kind="int"):
 	"""key columns (1 or 2 per side) realising (left unique?, right unique?) with the duplicate placed per variant"""
-	dom = {"int": [1, 2, 3, 4, 5, 6], "str": ["a", "b", "c", "d", "e", "f"], "hash": [-1, 7, -2, 3, 2**61 - 1, 0]}[kind]     # hash(-1) == hash(-2), hash(0) == hash(2**61-1)
+	from datetime import datetime as _dt
+	dom = {"int": [1, 2, 3, 4, 5, 6], "str": ["a", "b", "c", "d", "e", "f"], "hash": [-1, 7, -2, 3, 2**61 - 1, 0],
+		"datetime": [_dt(2020, 1, 31, 5, 0), _dt(2020, 1, 31, 17, 30), _dt(2020, 1, 31, 0, 0), _dt(2020, 1, 31, 5, 0, 1), _dt(2021, 2, 28, 9, 0), _dt(2021, 2, 28, 9, 1)]}[kind]     # hash(-1) == hash(-2), hash(0) == hash(2**61-1)
 	m1, m2, lonly, ronly, lonly2, ronly2 = dom
 	if variant == "composite":
 		if kind == "hash":
@@ -175,12 +181,16 @@ def run(chk):
 			for lu in (True, False):
 				for ru in (True, False):
 					for variant in VARIANTS:
-						for kind in ("int", "str", "hash"):
+						for kind in ("int", "str", "hash", "datetime"):
+							if kind == "datetime" and variant == "composite":
+								continue
 							idx += 1
 							if not chk.mine(idx):
 								continue
 							lk, rk = realise(rng, lu, ru, variant, kind)
-							chk.case("cell", spec_from_keys(rng, lk, rk, how, expect, variant), f"cell-{how}")
+							sp = spec_from_keys(rng, lk, rk, how, expect, variant)
+							sp["dynamic_expect"] = idx % 3 != 0
+							chk.case("cell", sp, f"cell-{how}")
 		# empty sides are trivially unique
 		for expect in EXPECTS:
 			for lk, rk in (([[]], [[1, 1]]), ([[1, 1]], [[]]), ([[]], [[]])):
